@@ -6,6 +6,7 @@ import (
 
 	"verif/core"
 	"verif/engine"
+	_ "verif/ctxprops"
 	"verif/fsprops"
 	"verif/ops"
 )
